@@ -337,9 +337,10 @@ def run_socks(case) -> CaseResult:
     pos = 0
     i = 0
     fed_after_request = 0     # chunks delivered since the connect request
+    started = False
     opened = False
+    opened_at = None          # stream offset delivered when the open finished
     lost_sent = False
-    early = False
 
     def guarded(what, fn, *args):
         was_closed = bool(cli_tr.closed)
@@ -363,16 +364,27 @@ def run_socks(case) -> CaseResult:
                             'socks:%s:%s' % (what, type(exc).__name__)) \
                 from None
 
-    def maybe_open():
-        nonlocal opened
+    def progress_task():
+        """What the event loop would do between two data_received calls"""
 
-        if conn.coros and not opened and fed_after_request >= delay:
+        nonlocal started, opened, opened_at
+
+        if not conn.coros:
+            return
+
+        if not started:
+            started = True
+
+            if guarded('forward-task', _drive, conn.coros[0]):
+                raise HarnessError('task finished before the gate')
+
+        if not opened and fed_after_request >= delay:
             gate.open = True
             opened = True
+            opened_at = pos
 
-            for c in conn.coros:
-                if not guarded('forward-task', _drive, c):
-                    raise HarnessError('forward task did not finish')
+            if not guarded('forward-task', _drive, conn.coros[0]):
+                raise HarnessError('forward task did not finish')
 
     while pos < len(stream):
         size = max(1, cuts[i % len(cuts)])
@@ -382,24 +394,15 @@ def run_socks(case) -> CaseResult:
 
         if conn.coros and not opened:
             fed_after_request += 1
-            early = True
 
         guarded('data_received', fwd.data_received, chunk)
-
-        if conn.coros and not opened:
-            # start the task (runs up to the gate), as create_task would
-            for c in conn.coros:
-                if getattr(c, 'cr_running', False) is False and \
-                        c.cr_frame is not None and c.cr_await is None:
-                    if guarded('forward-task', _drive, c):
-                        raise HarnessError('task finished before the gate')
 
         if cli_tr.closed and not lost_sent:
             # asyncio reports the close back once
             lost_sent = True
             guarded('connection_lost', fwd.connection_lost, None)
 
-        maybe_open()
+        progress_task()
 
     if len(conn.coros) > 1 or len(requests) > 1:
         raise Violation('single-connect', '%d connect requests for one SOCKS '
@@ -419,12 +422,12 @@ def run_socks(case) -> CaseResult:
     # let the open complete now if it has not yet
     if conn.coros and not opened:
         delay = 0
-        maybe_open()
+        progress_task()
 
     status = ref['status']
     connected = bool(requests)
 
-    if min(cuts) == 1 and len(stream) > 1:
+    if case['cuts'] and min(cuts) == 1 and len(stream) > 1:
         labels.add('chunk-1byte')
 
     if status == 'connect' and any(
@@ -508,8 +511,9 @@ def run_socks(case) -> CaseResult:
                         'socks:orig')
 
     rest = stream[ref['used']:]
+    early = bool(rest) and opened_at is not None and opened_at > ref['used']
 
-    if rest and early:
+    if early:
         labels.add('early-data')
 
     if not open_ok:
@@ -574,7 +578,7 @@ def run_socks(case) -> CaseResult:
         raise Violation('relay', 'data relayed after close',
                         'socks:relay-after-close')
 
-    return CaseResult(sorted(labels), bool(rest and early))
+    return CaseResult(sorted(labels), early)
 
 
 def _boundaries(cuts: List[int], total: int) -> List[int]:
@@ -728,3 +732,2052 @@ def socks_strategy(tier: str):
         st.sampled_from(['ok', 'ok', 'ok', 'fail']),
         st.sampled_from([0, 0, 1, 2, 5, 1000]), st.booleans(),
         st.one_of(st.just(b''), st.binary(min_size=1, max_size=20)))
+
+
+
+# ---------------------------------------------------------------------------
+# Family 3: permissions (in-memory pair, destination connect mocked by the
+# application callback returning a session / listener object)
+# ---------------------------------------------------------------------------
+
+HOSTS = ['a.example', 'b.example', '10.0.0.1', '::1']
+PORTS = [22, 80, 8080]
+UPATHS = ['/run/a.sock', '/run/b.sock']
+TCP_ALLOW = ['session', 'tuple', 'handler', 'coro']
+LISTEN_ALLOW = ['listener', 'coro-listener']
+_CERTS: Dict[Any, Any] = {}
+
+
+class _AppListener(asyncssh.SSHListener):
+    """A listener 'managed by the application' (no socket)"""
+
+    def __init__(self, port: int):
+        super().__init__()
+        self.port = port
+        self.closed = 0
+
+    def get_port(self) -> int:
+        return self.port
+
+    def close(self) -> None:
+        self.closed += 1
+
+    async def wait_closed(self) -> None:
+        return
+
+
+class _EchoSession:
+    """Server-side session standing in for the destination"""
+
+    def __init__(self):
+        self.chan = None
+        self.lost = False
+
+    def connection_made(self, chan):
+        self.chan = chan
+
+    def session_started(self):
+        pass
+
+    def data_received(self, data, datatype):
+        self.chan.write(b'E:' + data)
+
+    def eof_received(self):
+        return True
+
+    def connection_lost(self, exc):
+        self.lost = True
+
+    def pause_writing(self):
+        pass
+
+    def resume_writing(self):
+        pass
+
+
+class _EchoTCP(_EchoSession, asyncssh.SSHTCPSession):
+    pass
+
+
+class _EchoUNIX(_EchoSession, asyncssh.SSHUNIXSession):
+    pass
+
+
+class _RecSession:
+    def __init__(self):
+        self.chan = None
+        self.data = b''
+        self.lost = False
+
+    def connection_made(self, chan):
+        self.chan = chan
+
+    def session_started(self):
+        pass
+
+    def data_received(self, data, datatype):
+        self.data += data
+
+    def eof_received(self):
+        return True
+
+    def connection_lost(self, exc):
+        self.lost = True
+
+    def pause_writing(self):
+        pass
+
+    def resume_writing(self):
+        pass
+
+
+class _RecTCP(_RecSession, asyncssh.SSHTCPSession):
+    pass
+
+
+class _RecUNIX(_RecSession, asyncssh.SSHUNIXSession):
+    pass
+
+
+async def _echo_handler(reader, writer):
+    data = await reader.read(4)
+    writer.write(b'E:' + data)
+
+
+async def _aw(awaitable):
+    """asyncssh's async-context-manager wrappers are awaitable but are not
+    coroutines"""
+
+    return await awaitable
+
+
+def _user_cert(permit_pf: bool):
+    if permit_pf not in _CERTS:
+        ca = memwire.key('c20-ca')
+        user = memwire.key('c20-user')
+        _CERTS[permit_pf] = ca.generate_user_certificate(
+            user, 'c20', principals=['user'],
+            permit_port_forwarding=permit_pf)
+
+    return _CERTS[permit_pf]
+
+
+def _permitopen_allows(entries: List[List[Any]], host: str, port: int) -> bool:
+    """sshd(8): literal host, port or '*'; no list = no restriction"""
+
+    if not entries:
+        return True
+
+    return any(h == host and (p == '*' or p == port) for h, p in entries)
+
+
+def run_perm(case) -> CaseResult:
+    auth = case['auth']
+    opts: List[str] = []
+    labels = {'auth-' + auth}
+
+    if case['no_pf']:
+        opts.append('no-port-forwarding')
+
+    for h, p in case['permitopen']:
+        opts.append('permitopen="%s:%s"' %
+                    ('[%s]' % h if ':' in h and case['brackets'] else h, p))
+
+    opts.extend(case['noise'])
+    state: Dict[str, Any] = {'answer': None, 'calls': [], 'listeners': [],
+                             'sessions': []}
+
+    class Server(memwire.PwServer):
+        def _new_tcp(self, answer):
+            if answer == 'false':
+                return False
+            if answer == 'raise':
+                raise ChannelOpenError(
+                    asyncssh.OPEN_ADMINISTRATIVELY_PROHIBITED, 'app says no')
+            if answer == 'handler':
+                return _echo_handler
+
+            sess = _EchoTCP()
+            state['sessions'].append(sess)
+
+            if answer == 'session':
+                return sess
+            if answer == 'tuple':
+                return self.conn.create_tcp_channel(), sess
+            if answer == 'coro':
+                async def later():
+                    return sess
+                return later()
+
+            raise HarnessError('answer ' + answer)
+
+        def connection_requested(self, dest_host, dest_port, orig_host,
+                                 orig_port):
+            state['calls'].append(('tcp', dest_host, dest_port, orig_host,
+                                   orig_port))
+            return self._new_tcp(state['answer'])
+
+        def unix_connection_requested(self, dest_path):
+            state['calls'].append(('unix', dest_path))
+            answer = state['answer']
+
+            if answer == 'false':
+                return False
+            if answer == 'raise':
+                raise ChannelOpenError(
+                    asyncssh.OPEN_ADMINISTRATIVELY_PROHIBITED, 'app says no')
+            if answer == 'handler':
+                return _echo_handler
+
+            sess = _EchoUNIX()
+
+            if answer == 'session':
+                return sess
+            if answer == 'tuple':
+                return self.conn.create_unix_channel(), sess
+
+            async def later():
+                return sess
+            return later()
+
+        def _new_listener(self, port):
+            answer = state['answer']
+
+            if answer == 'false':
+                return False
+
+            if answer == 'coro-false':
+                async def no():
+                    return False
+                return no()
+
+            lst = _AppListener(port or 4242)
+            state['listeners'].append(lst)
+
+            if answer == 'listener':
+                return lst
+
+            async def later():
+                return lst
+            return later()
+
+        def server_requested(self, listen_host, listen_port):
+            state['calls'].append(('listen', listen_host, listen_port))
+            return self._new_listener(listen_port)
+
+        def unix_server_requested(self, listen_path):
+            state['calls'].append(('ulisten', listen_path))
+            return self._new_listener(0)
+
+    sopts: Dict[str, Any] = {'server_factory': Server}
+    copts: Dict[str, Any] = {}
+    user = memwire.key('c20-user')
+
+    if auth == 'key':
+        line = (','.join(opts) + ' ' if opts else '') + \
+            user.export_public_key().decode().strip()
+        sopts['authorized_client_keys'] = asyncssh.import_authorized_keys(
+            line + '\n')
+        copts.update(client_keys=[user], password=None)
+    elif auth == 'cert':
+        ca = memwire.key('c20-ca')
+        line = ','.join(['cert-authority'] + opts) + ' ' + \
+            ca.export_public_key().decode().strip()
+        sopts['authorized_client_keys'] = asyncssh.import_authorized_keys(
+            line + '\n')
+        copts.update(client_keys=[(user, _user_cert(case['cert_pf']))],
+                     password=None)
+
+    key_ok = auth == 'password' or not case['no_pf']
+    cert_ok = auth != 'cert' or case['cert_pf']
+    restricted = auth != 'password' and bool(case['permitopen'])
+
+    if restricted:
+        labels.add('permitopen')
+    if not key_ok:
+        labels.add('no-port-forwarding')
+    if not cert_ok:
+        labels.add('cert-without-permit')
+
+    pair = Pair(sopts, copts)
+    h = pair.h
+    nontrivial = False
+
+    try:
+        try:
+            pair.handshake()
+        except Exception as exc:
+            raise HarnessError('C20 permissions: authentication failed: %r'
+                               % (exc,)) from None
+
+        sconn = pair.s
+        established_listeners = []
+        inbound: List[Any] = []
+
+        def _mk(cls, orig):
+            sess = cls()
+            inbound.append((orig, sess))
+            return sess
+
+        for req in case['reqs']:
+            kind, answer = req[0], req[-1]
+            state['answer'] = answer
+            ncalls = len(state['calls'])
+            app_ok = answer not in ('false', 'raise', 'coro-false')
+            reasons = []
+
+            if not key_ok:
+                reasons.append('key')
+            if not cert_ok:
+                reasons.append('cert')
+            if kind == 'tcp' and restricted and not _permitopen_allows(
+                    case['permitopen'], req[1], req[2]):
+                reasons.append('permitopen')
+            if not app_ok:
+                reasons.append('app-' + answer)
+
+            want = not reasons
+            labels.add(kind + ('-allowed' if want else '-denied'))
+
+            if reasons and reasons != ['app-' + answer]:
+                labels.add('denied-by-' + reasons[0])
+
+            if kind == 'tcp' and restricted and want:
+                labels.add('permitopen-match')
+
+            got_exc = None
+            result = None
+
+            try:
+                if kind == 'tcp':
+                    result = h.run(_aw(pair.c.create_connection(
+                        _RecTCP, req[1], req[2], 'orig.example', 1234)))
+                elif kind == 'unix':
+                    result = h.run(_aw(pair.c.create_unix_connection(
+                        _RecUNIX, req[1])))
+                elif kind == 'listen':
+                    result = h.run(_aw(pair.c.create_server(
+                        lambda oh, op: _mk(_RecTCP, (oh, op)), req[1],
+                        req[2])))
+                else:
+                    result = h.run(_aw(pair.c.create_unix_server(
+                        lambda: _mk(_RecUNIX, ()), req[1])))
+            except (ChannelOpenError, asyncssh.ChannelListenError) as exc:
+                got_exc = exc
+            except memwire.Stuck:
+                raise Violation('permission', '%s request never answered' %
+                                kind, 'perm:%s:no-answer' % kind) from None
+
+            got = got_exc is None
+
+            if got != want:
+                nontrivial = True
+                if got:
+                    raise Violation(
+                        'permission', '%s %r served although %s forbids it '
+                        '(auth=%s options=%r cert_pf=%r)' %
+                        (kind, req[1:-1], '+'.join(reasons), auth, opts,
+                         case.get('cert_pf')),
+                        'perm:%s:served-despite-%s' % (kind, reasons[0]))
+
+                raise Violation(
+                    'permission', '%s %r refused (%r) although everything '
+                    'permits it (auth=%s options=%r app=%s)' %
+                    (kind, req[1:-1], got_exc, auth, opts, answer),
+                    'perm:%s:refused-though-permitted' % kind)
+
+            if not want:
+                nontrivial = True
+                wrong = (asyncssh.ChannelListenError
+                         if kind in ('tcp', 'unix') else ChannelOpenError)
+
+                if isinstance(got_exc, wrong):
+                    raise Violation('permission', 'wrong error type %r' %
+                                    (got_exc,), 'perm:%s:error-type' % kind)
+
+                if reasons == ['app-false'] and kind in ('tcp', 'unix') and \
+                        got_exc.code != asyncssh.OPEN_CONNECT_FAILED:
+                    # documented: False sends back "Connection refused"
+                    raise Violation('permission', 'application refusal '
+                                    'reported with code %r' % got_exc.code,
+                                    'perm:%s:refusal-code' % kind)
+
+                continue
+
+            # established: the request really reached the application with
+            # the requested destination, and data flows
+            call = state['calls'][-1] if len(state['calls']) > ncalls \
+                else None
+
+            if kind == 'tcp':
+                if call != ('tcp', req[1], req[2], 'orig.example', 1234):
+                    raise Violation('dest', 'application saw %r for %r' %
+                                    (call, req), 'perm:tcp:dest')
+            elif kind == 'unix':
+                if call != ('unix', req[1]):
+                    raise Violation('dest', 'application saw %r for %r' %
+                                    (call, req), 'perm:unix:dest')
+            elif kind == 'listen':
+                if call != ('listen', req[1], req[2]):
+                    raise Violation('dest', 'application saw %r for %r' %
+                                    (call, req), 'perm:listen:dest')
+            elif call != ('ulisten', req[1]):
+                raise Violation('dest', 'application saw %r for %r' %
+                                (call, req), 'perm:ulisten:dest')
+
+            if kind in ('tcp', 'unix'):
+                chan, sess = result
+                h.call(chan.write, b'ping')
+                h.pump()
+
+                if sess.data != b'E:ping':
+                    raise Violation('relay', '%s channel: sent ping, got %r'
+                                    % (kind, sess.data),
+                                    'perm:%s:echo' % kind)
+
+                h.call(chan.close)
+                h.pump()
+            else:
+                listener = result
+                app_lst = state['listeners'][-1]
+                established_listeners.append((kind, listener, app_lst))
+
+                if kind == 'listen':
+                    wantport = req[2] or 4242
+
+                    if listener.get_port() != wantport:
+                        raise Violation('dest', 'listener port %r, wanted %r'
+                                        % (listener.get_port(), wantport),
+                                        'perm:listen:port')
+
+                    if req[2] == 0:
+                        labels.add('dynamic-port')
+
+                    # an inbound connection reaches the client's factory
+                    schan, ssess = h.run(_aw(sconn.create_connection(
+                        _RecTCP, req[1], wantport, 'peer.example', 999)))
+                else:
+                    schan, ssess = h.run(_aw(sconn.create_unix_connection(
+                        _RecUNIX, req[1])))
+
+                h.call(schan.write, b'hello')
+                h.pump()
+
+                if not inbound or inbound[-1][1].data != b'hello' or \
+                        (kind == 'listen' and
+                         inbound[-1][0] != ('peer.example', 999)):
+                    raise Violation('relay', 'inbound %s connection: client '
+                                    'factory saw %r' %
+                                    (kind, [(o, x.data) for o, x in
+                                            inbound[-1:]]),
+                                    'perm:%s:inbound' % kind)
+
+                h.call(schan.close)
+                h.pump()
+
+        # a cancelled listener is closed at the server
+        cancelled = set()
+
+        if case['cancel'] and established_listeners:
+            kind, listener, app_lst = established_listeners[0]
+            labels.add('cancel')
+            h.call(listener.close)
+            h.run(listener.wait_closed())
+            h.pump()
+            cancelled.add(0)
+
+            if app_lst.closed != 1:
+                raise Violation('release', 'cancelled %s listener closed %d '
+                                'times at the server' % (kind, app_lst.closed),
+                                'perm:cancel-close')
+
+        end = case['end']
+        labels.add('end-' + end)
+
+        if end == 'close':
+            h.call(pair.c.close)
+        elif end == 'abort':
+            h.call(pair.c.abort)
+        elif end == 'sclose':
+            h.call(sconn.close)
+        else:
+            h.cut_wire()
+
+        h.pump()
+
+        for i, (kind, listener, app_lst) in enumerate(established_listeners):
+            if i in cancelled:
+                continue
+
+            labels.add('listener-at-end')
+
+            if app_lst.closed < 1:
+                raise Violation('release', '%s listener handed to the server '
+                                'connection is not closed after the '
+                                'connection ended (%s)' % (kind, end),
+                                'perm:listener-not-closed')
+
+        if h.loop_errors:
+            raise Violation('loop-error', repr(h.loop_errors[0])[:500],
+                            'perm:loop-error')
+
+        return CaseResult(sorted(labels), nontrivial)
+    finally:
+        pair.close()
+
+
+def perm_strategy(tier: str):
+    host = st.sampled_from(HOSTS)
+    port = st.sampled_from(PORTS)
+    entry = st.tuples(host, st.one_of(port, port, st.just('*'))).map(list)
+    tcp_answer = st.sampled_from(TCP_ALLOW + ['session', 'false', 'raise'])
+    lst_answer = st.sampled_from(LISTEN_ALLOW + ['listener', 'false',
+                                                 'coro-false'])
+    req = st.one_of(
+        st.tuples(st.just('tcp'), host, port, tcp_answer),
+        st.tuples(st.just('tcp'), host, port, tcp_answer),
+        st.tuples(st.just('unix'), st.sampled_from(UPATHS), tcp_answer),
+        st.tuples(st.just('listen'), st.sampled_from(['', 'localhost',
+                                                      '10.0.0.1']),
+                  st.sampled_from([0, 2222, 8080]), lst_answer),
+        st.tuples(st.just('ulisten'), st.sampled_from(UPATHS), lst_answer),
+    ).map(list)
+
+    def uniq(reqs):
+        # one listener per address: a second request for the same address is
+        # a different question (address in use), not a permission one
+        seen = set()
+        out = []
+
+        for r in reqs:
+            if r[0] in ('listen', 'ulisten'):
+                k = (r[0], r[1], r[2] if r[0] == 'listen' else 0)
+                if k in seen:
+                    continue
+                seen.add(k)
+            out.append(r)
+
+        return out
+
+    return st.fixed_dictionaries({
+        'auth': st.sampled_from(['password', 'key', 'key', 'cert', 'cert']),
+        'no_pf': st.sampled_from([False, False, True]),
+        'cert_pf': st.sampled_from([True, True, False]),
+        'permitopen': st.one_of(st.just([]),
+                                st.lists(entry, min_size=1, max_size=3)),
+        'brackets': st.booleans(),
+        'noise': st.lists(st.sampled_from(['no-pty', 'no-agent-forwarding',
+                                           'no-X11-forwarding']),
+                          max_size=2, unique=True),
+        'reqs': st.lists(req, min_size=1, max_size=4).map(uniq),
+        'cancel': st.booleans(),
+        'end': st.sampled_from(['close', 'abort', 'sclose', 'cut']),
+    })
+
+
+
+# ---------------------------------------------------------------------------
+# Families 2, 4, 5: real sockets on 127.0.0.1 / UNIX sockets in a temp dir
+# ---------------------------------------------------------------------------
+
+HARNESS_TIMEOUT = 30.0      # anything slower than this is a harness problem
+SETTLE_FIRST = 0.4          # first wait for an expected event
+SETTLE_ROUNDS = 3           # further (probe round trips + sleep) rounds
+SETTLE_SLEEP = 0.2
+_PAT: Dict[int, bytes] = {}
+_PERIOD = 64007
+
+
+def pat(tag: int, off: int, n: int) -> bytes:
+    """n bytes of the tag's stream starting at offset off (position-coded so
+    loss, duplication, reordering and cross-talk all change the content)"""
+
+    if tag not in _PAT:
+        _PAT[tag] = bytes((i * 7 + (i >> 8) * 13 + tag * 101) & 0xff
+                          for i in range(_PERIOD))
+
+    base = _PAT[tag]
+    start = off % _PERIOD
+    reps = (start + n) // _PERIOD + 1
+    return (base * reps)[start:start + n]
+
+
+class _End:
+    """One observed end of a relayed connection"""
+
+    def __init__(self, rig: 'Rig', name: str):
+        self.rig = rig
+        self.name = name
+        self.received = bytearray()
+        self.eof = False          # EOF or loss seen
+        self.lost = False
+        self.connected = False
+        self.sent = 0
+
+
+class SockEnd(_End, asyncio.Protocol):
+    def __init__(self, rig, name, banner: bytes = b''):
+        super().__init__(rig, name)
+        self.tr: Any = None
+        self.banner = banner
+
+    def connection_made(self, transport):
+        self.tr = transport
+        self.connected = True
+
+        if self.banner:
+            transport.write(self.banner)
+
+        self.rig.notify()
+
+    def data_received(self, data):
+        self.received += data
+        self.rig.notify()
+
+    def eof_received(self):
+        self.eof = True
+        self.rig.notify()
+        return True
+
+    def connection_lost(self, exc):
+        self.eof = True
+        self.lost = True
+        self.rig.notify()
+
+    def write(self, data):
+        self.tr.write(data)
+
+    def write_eof(self):
+        self.tr.write_eof()
+
+    def close(self):
+        if self.tr:
+            self.tr.close()
+
+    def abort(self):
+        sock = self.tr.get_extra_info('socket')
+
+        if sock is not None and sock.family == socket.AF_INET:
+            sock.setsockopt(socket.SOL_SOCKET, socket.SO_LINGER,
+                            struct.pack('ii', 1, 0))
+
+        self.tr.abort()
+
+    def pause(self):
+        self.tr.pause_reading()
+
+    def resume(self):
+        if not self.tr.is_closing():
+            self.tr.resume_reading()
+
+
+class ChanEnd(_End):
+    """SSHReader/SSHWriter end of a direct connection"""
+
+    def __init__(self, rig, name, reader, writer):
+        super().__init__(rig, name)
+        self.reader = reader
+        self.writer = writer
+        self.connected = True
+        self.gate = asyncio.Event()
+        self.gate.set()
+        self.task = rig.loop.create_task(self._read())
+
+    async def _read(self):
+        try:
+            while True:
+                await self.gate.wait()
+                data = await self.reader.read(65536)
+
+                if not data:
+                    break
+
+                self.received += data
+                self.rig.notify()
+        except (asyncssh.Error, OSError, asyncio.IncompleteReadError):
+            self.lost = True
+
+        self.eof = True
+        self.rig.notify()
+
+    def write(self, data):
+        self.writer.write(data)
+
+    def write_eof(self):
+        self.writer.write_eof()
+
+    def close(self):
+        self.writer.close()
+
+    def abort(self):
+        self.writer.channel.abort()
+
+    def pause(self):
+        self.gate.clear()
+
+    def resume(self):
+        self.gate.set()
+
+
+class _ProbeServerSession(asyncssh.SSHTCPSession):
+    def connection_made(self, chan):
+        self.chan = chan
+
+    def data_received(self, data, datatype):
+        self.chan.write(data)
+
+
+class _ProbeClientSession(asyncssh.SSHTCPSession):
+    def __init__(self, rig):
+        self.rig = rig
+        self.got = b''
+
+    def data_received(self, data, datatype):
+        self.got += data
+        self.rig.notify()
+
+    def connection_lost(self, exc):
+        self.rig.notify()
+
+
+class RigServer(asyncssh.SSHServer):
+    rig: 'Rig' = None  # type: ignore
+
+    def connection_made(self, conn):
+        self.conn = conn
+        self.rig.sconns.append(conn)
+
+    def begin_auth(self, username):
+        return True
+
+    def password_auth_supported(self):
+        return True
+
+    def validate_password(self, username, password):
+        return password == 'pw'
+
+    def connection_requested(self, dest_host, dest_port, orig_host, orig_port):
+        if dest_host == 'probe.invalid':
+            return _ProbeServerSession()
+
+        self.rig.requests.append(('tcp', dest_host, dest_port))
+        return True
+
+    def unix_connection_requested(self, dest_path):
+        self.rig.requests.append(('unix', dest_path))
+        return True
+
+    def server_requested(self, listen_host, listen_port):
+        return True
+
+    def unix_server_requested(self, listen_path):
+        return True
+
+
+def _own_socket_inodes() -> Dict[str, int]:
+    out = {}
+
+    for fd in os.listdir('/proc/self/fd'):
+        try:
+            link = os.readlink('/proc/self/fd/' + fd)
+        except OSError:
+            continue
+
+        if link.startswith('socket:['):
+            out[link[8:-1]] = int(fd)
+
+    return out
+
+
+def own_listeners() -> List[str]:
+    """Listening TCP and UNIX sockets held by this process"""
+
+    inodes = _own_socket_inodes()
+    out = []
+
+    for fn in ('/proc/self/net/tcp', '/proc/self/net/tcp6'):
+        try:
+            with open(fn) as f:
+                lines = f.read().splitlines()[1:]
+        except OSError:
+            continue
+
+        for line in lines:
+            cols = line.split()
+
+            if cols[3] == '0A' and cols[9] in inodes:
+                out.append('tcp:%d' % int(cols[1].rsplit(':', 1)[1], 16))
+
+    try:
+        with open('/proc/self/net/unix') as f:
+            lines = f.read().splitlines()[1:]
+    except OSError:
+        lines = []
+
+    for line in lines:
+        cols = line.split()
+
+        # Num RefCount Protocol Flags Type St Inode Path
+        if len(cols) >= 7 and int(cols[3], 16) & 0x10000 and \
+                cols[6] in inodes:
+            out.append('unix:' + (cols[7] if len(cols) > 7 else ''))
+
+    return sorted(out)
+
+
+class Rig:
+    """asyncssh server + client on 127.0.0.1 in a private event loop, a
+    destination endpoint (B) and helpers to open the originating end (A)"""
+
+    def __init__(self):
+        self.loop = asyncio.new_event_loop()
+        self.tmp = tempfile.mkdtemp(prefix='c20-')
+        self.changed: Optional[asyncio.Event] = None
+        self.sconns: List[Any] = []
+        self.requests: List[Any] = []
+        self.acceptor: Any = None
+        self.conn: Any = None
+        self.probe_chan: Any = None
+        self.probe_sess: Any = None
+        self.probe_n = 0
+        self.b_ends: List[SockEnd] = []
+        self.b_servers: Dict[str, Any] = {}
+        self.b_banner = b''
+        self.b_rcvbuf = 0
+        self.ends: List[Any] = []
+        self.proxy: Any = None
+        self.proxy_pairs: List[Any] = []
+        self.procs: List[subprocess.Popen] = []
+        self.loop_errors: List[Any] = []
+        self.loop.set_exception_handler(
+            lambda loop, ctx: self.loop_errors.append(ctx))
+
+    # -- plumbing -----------------------------------------------------------
+
+    def notify(self):
+        if self.changed is not None:
+            self.changed.set()
+
+    def run(self, coro):
+        asyncio.set_event_loop(self.loop)
+        return self.loop.run_until_complete(coro)
+
+    async def must(self, awaitable, what: str):
+        """Harness-level step: slowness here is never a verdict"""
+
+        try:
+            return await asyncio.wait_for(_aw(awaitable), HARNESS_TIMEOUT)
+        except asyncio.TimeoutError:
+            raise HarnessError('C20 rig: %s did not finish in %ss' %
+                               (what, HARNESS_TIMEOUT)) from None
+
+    async def start(self, server_opts=None, client_opts=None,
+                    via_proxy=False, connect=True):
+        self.changed = asyncio.Event()
+        rig = self
+
+        class Server(RigServer):
+            pass
+
+        Server.rig = rig
+        sopts = dict(server_factory=Server,
+                     server_host_keys=[memwire.key('host')])
+        sopts.update(server_opts or {})
+        self.acceptor = await self.must(
+            asyncssh.listen('127.0.0.1', 0, **sopts), 'listen')
+        self.sport = self.acceptor.get_port()
+        port = self.sport
+
+        if via_proxy:
+            port = await self._start_proxy()
+
+        if not connect:
+            return
+
+        copts = dict(known_hosts=None, username='user', password='pw',
+                     client_keys=None, config=None, agent_path=None)
+        copts.update(client_opts or {})
+        self.conn = await self.must(
+            asyncssh.connect('127.0.0.1', port, **copts), 'connect')
+        self.probe_chan, self.probe_sess = await self.must(
+            self.conn.create_connection(lambda: _ProbeClientSession(rig),
+                                        'probe.invalid', 7), 'probe channel')
+
+    async def _start_proxy(self) -> int:
+        rig = self
+
+        class Up(asyncio.Protocol):
+            def __init__(self, down):
+                self.down = down
+                self.tr = None
+
+            def connection_made(self, transport):
+                self.tr = transport
+
+            def data_received(self, data):
+                if self.down.tr and not self.down.tr.is_closing():
+                    self.down.tr.write(data)
+
+            def connection_lost(self, exc):
+                if self.down.tr:
+                    self.down.tr.close()
+
+        class Down(asyncio.Protocol):
+            def __init__(self):
+                self.tr = None
+                self.up = None
+                self.pending = []
+
+            def connection_made(self, transport):
+                self.tr = transport
+                rig.proxy_pairs.append(self)
+                rig.loop.create_task(self._connect())
+
+            async def _connect(self):
+                _, up = await rig.loop.create_connection(
+                    lambda: Up(self), '127.0.0.1', rig.sport)
+                self.up = up
+
+                for data in self.pending:
+                    up.tr.write(data)
+
+                self.pending = []
+
+            def data_received(self, data):
+                if self.up:
+                    self.up.tr.write(data)
+                else:
+                    self.pending.append(data)
+
+            def connection_lost(self, exc):
+                if self.up and self.up.tr:
+                    self.up.tr.close()
+
+        self.proxy = await self.loop.create_server(Down, '127.0.0.1', 0)
+        return self.proxy.sockets[0].getsockname()[1]
+
+    def cut(self):
+        """Lose the SSH connection: both TCP legs reset at once"""
+
+        for down in self.proxy_pairs:
+            for tr in (down.tr, down.up.tr if down.up else None):
+                if tr is not None:
+                    sock = tr.get_extra_info('socket')
+
+                    if sock is not None:
+                        sock.setsockopt(socket.SOL_SOCKET, socket.SO_LINGER,
+                                        struct.pack('ii', 1, 0))
+
+                    tr.abort()
+
+    async def probe(self) -> None:
+        """A full round trip through client connection, TCP, server
+        connection and back (or, once the SSH connection is gone, a few
+        passes through the loop and the kernel)"""
+
+        chan = self.probe_chan
+
+        if chan is not None and self.conn is not None and \
+                not getattr(self.conn, '_transport', None) is None and \
+                not chan.is_closing():
+            self.probe_n += 1
+            token = b'<%d>' % self.probe_n
+
+            try:
+                chan.write(token)
+            except (OSError, asyncssh.Error):
+                chan = None
+
+            if chan is not None:
+                deadline = self.loop.time() + HARNESS_TIMEOUT
+
+                while token not in self.probe_sess.got:
+                    if chan.is_closing() or \
+                            self.loop.time() > deadline:
+                        break
+
+                    self.changed.clear()
+
+                    try:
+                        await asyncio.wait_for(self.changed.wait(), 0.5)
+                    except asyncio.TimeoutError:
+                        pass
+
+                if token in self.probe_sess.got:
+                    self.probe_sess.got = b''
+                    return
+
+                if not chan.is_closing():
+                    raise HarnessError('C20 rig: probe echo not answered')
+
+        a, b = socket.socketpair()
+
+        try:
+            a.setblocking(False)
+            b.setblocking(False)
+
+            for _ in range(5):
+                await self.loop.sock_sendall(a, b'x')
+                await self.loop.sock_recv(b, 1)
+                await asyncio.sleep(0)
+        finally:
+            a.close()
+            b.close()
+
+    async def wait_until(self, cond: Callable[[], bool],
+                         first: float = SETTLE_FIRST) -> bool:
+        """Wait for an expected event.  False is only returned after the
+        event stayed absent through the first wait and SETTLE_ROUNDS rounds
+        of (3 probe round trips, sleep, 3 probe round trips): a stall of
+        the machine delays the probes as well, so it cannot produce a
+        False"""
+
+        deadline = self.loop.time() + first
+
+        while not cond():
+            left = deadline - self.loop.time()
+
+            if left <= 0:
+                break
+
+            self.changed.clear()
+
+            try:
+                await asyncio.wait_for(self.changed.wait(), left)
+            except asyncio.TimeoutError:
+                break
+
+        for _ in range(SETTLE_ROUNDS):
+            if cond():
+                return True
+
+            for _ in range(3):
+                await self.probe()
+
+            if cond():
+                return True
+
+            await asyncio.sleep(SETTLE_SLEEP)
+
+            for _ in range(3):
+                await self.probe()
+
+        return cond()
+
+    async def expect(self, cond, clause: str, sig: str, detail,
+                     poll: bool = False) -> None:
+        """poll=True: the condition is on state that does not notify"""
+
+        if not await self.wait_until(cond, 0 if poll else SETTLE_FIRST):
+            raise Violation(clause, detail() if callable(detail) else detail,
+                            sig)
+
+    # -- destination endpoint (B) ------------------------------------------
+
+    def _b_factory(self):
+        end = SockEnd(self, 'B%d' % len(self.b_ends), self.b_banner)
+        self.b_ends.append(end)
+        return end
+
+    async def start_b(self, unix: bool):
+        if unix:
+            path = os.path.join(self.tmp, 'b.sock')
+            sock = socket.socket(socket.AF_UNIX, socket.SOCK_STREAM)
+            sock.bind(path)
+        else:
+            sock = socket.socket(socket.AF_INET, socket.SOCK_STREAM)
+            sock.bind(('127.0.0.1', 0))
+
+        if self.b_rcvbuf:
+            sock.setsockopt(socket.SOL_SOCKET, socket.SO_RCVBUF,
+                            self.b_rcvbuf)
+
+        sock.listen(16)
+        sock.setblocking(False)
+
+        if unix:
+            srv = await self.loop.create_unix_server(self._b_factory,
+                                                     sock=sock)
+            self.b_servers['unix'] = srv
+            return path
+
+        srv = await self.loop.create_server(self._b_factory, sock=sock)
+        self.b_servers['tcp'] = srv
+        return sock.getsockname()[1]
+
+    # -- originating end (A) -----------------------------------------------
+
+    async def connect_a(self, where, name='A', rcvbuf=0) -> SockEnd:
+        end = SockEnd(self, name)
+        self.ends.append(end)
+
+        if isinstance(where, str):
+            sock = socket.socket(socket.AF_UNIX, socket.SOCK_STREAM)
+            addr: Any = where
+        else:
+            sock = socket.socket(socket.AF_INET, socket.SOCK_STREAM)
+            addr = ('127.0.0.1', where)
+
+        if rcvbuf:
+            sock.setsockopt(socket.SOL_SOCKET, socket.SO_RCVBUF, rcvbuf)
+
+        sock.setblocking(False)
+
+        try:
+            await self.must(self.loop.sock_connect(sock, addr),
+                            'connect to forwarded listener')
+        except BaseException:
+            sock.close()
+            raise
+
+        if isinstance(where, str):
+            await self.loop.create_unix_connection(lambda: end, sock=sock)
+        else:
+            await self.loop.create_connection(lambda: end, sock=sock)
+
+        return end
+
+    # -- teardown -----------------------------------------------------------
+
+    async def _shutdown(self):
+        for end in self.ends + self.b_ends:
+            try:
+                if isinstance(end, ChanEnd):
+                    end.task.cancel()
+                    end.writer.close()
+                elif end.tr is not None:
+                    end.tr.abort()
+            except Exception:  # pylint: disable=broad-except
+                pass
+
+        if self.conn is not None:
+            self.conn.abort()
+
+        for sconn in self.sconns:
+            sconn.abort()
+
+        if self.acceptor is not None:
+            self.acceptor.close()
+
+        if self.proxy is not None:
+            self.proxy.close()
+
+        for srv in self.b_servers.values():
+            srv.close()
+
+        for _ in range(3):
+            await asyncio.sleep(0)
+
+        tasks = [t for t in asyncio.all_tasks(self.loop)
+                 if t is not asyncio.current_task()]
+
+        for t in tasks:
+            t.cancel()
+
+        if tasks:
+            await asyncio.wait(tasks, timeout=2)
+
+    def close(self):
+        try:
+            for proc in self.procs:
+                if proc.poll() is None:
+                    proc.terminate()
+
+            for proc in self.procs:
+                try:
+                    proc.wait(5)
+                except subprocess.TimeoutExpired:
+                    proc.kill()
+                    proc.wait()
+
+                for f in (proc.stdout, proc.stderr):
+                    if f:
+                        f.close()
+
+            try:
+                asyncio.set_event_loop(self.loop)
+                self.loop.run_until_complete(
+                    asyncio.wait_for(self._shutdown(), 10))
+                self.loop.run_until_complete(self.loop.shutdown_asyncgens())
+                self.loop.run_until_complete(
+                    self.loop.shutdown_default_executor())
+            finally:
+                asyncio.set_event_loop(None)
+                self.loop.close()
+        finally:
+            shutil.rmtree(self.tmp, ignore_errors=True)
+
+
+# SOCKS client side (written from the protocol texts, used by relay/interop)
+
+def socks_request(ver: str, port: int) -> List[bytes]:
+    """Messages a SOCKS client sends to reach 127.0.0.1/localhost:port"""
+
+    p = struct.pack('>H', port)
+
+    if ver == '4':
+        return [b'\x04\x01' + p + b'\x7f\0\0\x01' + b'c20\0']
+    if ver == '4a':
+        return [b'\x04\x01' + p + b'\0\0\0\x07' + b'\0' + b'localhost\0']
+    if ver == '5':
+        return [b'\x05\x02\x02\x00',
+                b'\x05\x01\x00\x01' + b'\x7f\0\0\x01' + p]
+    if ver == '5h':
+        return [b'\x05\x01\x00',
+                b'\x05\x01\x00\x03\x09localhost' + p]
+
+    raise HarnessError('socks version ' + ver)
+
+
+def socks_reply_len(ver: str, buf: bytes) -> Optional[int]:
+    """Length of the complete server dialogue at the head of buf, None while
+    incomplete; raises Violation on a malformed or failure reply"""
+
+    if ver in ('4', '4a'):
+        if len(buf) < 8:
+            return None
+        if buf[0] != 0 or buf[1] != 0x5a:
+            raise Violation('socks-reply', 'SOCKS4 reply %r' % bytes(buf[:8]),
+                            'relay:socks4-reply')
+        return 8
+
+    if len(buf) < 2:
+        return None
+    if bytes(buf[:2]) != b'\x05\x00':
+        raise Violation('socks-reply', 'SOCKS5 method selection %r' %
+                        bytes(buf[:2]), 'relay:socks5-method')
+    if len(buf) < 6:
+        return None
+    if bytes(buf[2:5]) != b'\x05\x00\x00':
+        raise Violation('socks-reply', 'SOCKS5 reply %r' % bytes(buf[2:6]),
+                        'relay:socks5-reply')
+
+    if buf[5] == 1:
+        total = 6 + 4 + 2
+    elif buf[5] == 4:
+        total = 6 + 16 + 2
+    elif buf[5] == 3:
+        if len(buf) < 7:
+            return None
+        total = 7 + buf[6] + 2
+    else:
+        raise Violation('socks-reply', 'SOCKS5 reply address type %d' %
+                        buf[5], 'relay:socks5-atyp')
+
+    return total if len(buf) >= total else None
+
+
+KINDS = ['local_port', 'local_path', 'remote_port', 'remote_path', 'socks',
+         'direct', 'direct_unix', 'local_port_to_path', 'local_path_to_port',
+         'remote_port_to_path', 'remote_path_to_port']
+B_UNIX = {'local_path', 'remote_path', 'direct_unix', 'local_port_to_path',
+          'remote_port_to_path'}
+
+
+async def setup_forward(rig: Rig, kind: str, bwhere,
+                        tag: str = '') -> Tuple[Any, Any]:
+    """Returns (listener or None, where A connects)"""
+
+    conn = rig.conn
+    tmp = rig.tmp
+
+    if kind == 'local_port':
+        lst = await rig.must(conn.forward_local_port(
+            '127.0.0.1', 0, '127.0.0.1', bwhere), kind)
+        return lst, lst.get_port()
+    if kind == 'local_path':
+        path = os.path.join(tmp, 'l%s.sock' % tag)
+        lst = await rig.must(conn.forward_local_path(path, bwhere), kind)
+        return lst, path
+    if kind == 'local_port_to_path':
+        lst = await rig.must(conn.forward_local_port_to_path(
+            '127.0.0.1', 0, bwhere), kind)
+        return lst, lst.get_port()
+    if kind == 'local_path_to_port':
+        path = os.path.join(tmp, 'l%s.sock' % tag)
+        lst = await rig.must(conn.forward_local_path_to_port(
+            path, '127.0.0.1', bwhere), kind)
+        return lst, path
+    if kind == 'remote_port':
+        lst = await rig.must(conn.forward_remote_port(
+            '127.0.0.1', 0, '127.0.0.1', bwhere), kind)
+        return lst, lst.get_port()
+    if kind == 'remote_path':
+        path = os.path.join(tmp, 'r%s.sock' % tag)
+        lst = await rig.must(conn.forward_remote_path(path, bwhere), kind)
+        return lst, path
+    if kind == 'remote_port_to_path':
+        lst = await rig.must(conn.forward_remote_port_to_path(
+            '127.0.0.1', 0, bwhere), kind)
+        return lst, lst.get_port()
+    if kind == 'remote_path_to_port':
+        path = os.path.join(tmp, 'r%s.sock' % tag)
+        lst = await rig.must(conn.forward_remote_path_to_port(
+            path, '127.0.0.1', bwhere), kind)
+        return lst, path
+    if kind == 'socks':
+        lst = await rig.must(conn.forward_socks('127.0.0.1', 0), kind)
+        return lst, lst.get_port()
+
+    return None, None
+
+
+async def open_a(rig: Rig, kind: str, awhere, bwhere, name='A',
+                 rcvbuf=0):
+    if kind == 'direct':
+        reader, writer = await rig.must(
+            rig.conn.open_connection('127.0.0.1', bwhere), 'open_connection')
+        end = ChanEnd(rig, name, reader, writer)
+        rig.ends.append(end)
+        return end
+    if kind == 'direct_unix':
+        reader, writer = await rig.must(
+            rig.conn.open_unix_connection(bwhere), 'open_unix_connection')
+        end = ChanEnd(rig, name, reader, writer)
+        rig.ends.append(end)
+        return end
+
+    return await rig.connect_a(awhere, name, rcvbuf)
+
+
+def _diff(want: bytes, got: bytes) -> str:
+    k = next((i for i, (x, y) in enumerate(zip(want, got)) if x != y),
+             min(len(want), len(got)))
+    return 'sent %d bytes, received %d, first difference at offset %d' % \
+        (len(want), len(got), k)
+
+
+async def relay_scenario(rig: Rig, case, labels) -> bool:
+    kind = case['kind']
+    b_unix = kind in B_UNIX
+    labels.add(kind)
+    nontrivial = False
+    rig.b_banner = pat(2, 0, case['banner'])
+
+    if case['slow']:
+        rig.b_rcvbuf = 4096
+        labels.add('slow-reader')
+
+    await rig.start()
+    bwhere = await rig.start_b(b_unix)
+    listener, awhere = await setup_forward(rig, kind, bwhere)
+
+    # a bystander connection through the same forwarding: its stream must
+    # stay its own
+    by = None
+
+    if case['bystander']:
+        labels.add('bystander')
+        by = await open_a(rig, kind, awhere, bwhere, 'Y')
+
+        if kind == 'socks':
+            by.write(b''.join(socks_request('5', bwhere)))
+
+        by.write(pat(5, 0, 3000))
+        by.sent = 3000
+
+    a = await open_a(rig, kind, awhere, bwhere, 'A',
+                     4096 if case['slow'] else 0)
+    skip = 0
+
+    if kind == 'socks':
+        ver = case['socks']
+        labels.add('socks' + ver)
+        msgs = socks_request(ver, bwhere)
+
+        if case['pipelined']:
+            labels.add('socks-pipelined')
+            a.write(b''.join(msgs) + pat(1, 0, case['early']))
+            a.sent = case['early']
+        else:
+            for i, msg in enumerate(msgs):
+                a.write(msg)
+
+                if i + 1 < len(msgs):
+                    await rig.expect(
+                        lambda: len(a.received) >= 2 or a.eof, 'socks-reply',
+                        'relay:socks-no-method-reply',
+                        'no method selection from the SOCKS listener')
+
+        def dialogue_done():
+            return a.eof or socks_reply_len(ver, a.received) is not None
+
+        await rig.expect(dialogue_done, 'socks-reply', 'relay:socks-no-reply',
+                         lambda: 'SOCKS%s dialogue incomplete: %r' %
+                         (ver, bytes(a.received[:30])))
+        skip = socks_reply_len(ver, a.received) or 0
+
+        if not skip:
+            raise Violation('socks-reply', 'SOCKS listener closed the '
+                            'connection on a valid %s request' % ver,
+                            'relay:socks-closed')
+
+    if case['early'] and not (kind == 'socks' and case['pipelined']):
+        # written before anything can have confirmed the channel
+        a.write(pat(1, 0, case['early']))
+        a.sent = case['early']
+
+    if case['early']:
+        labels.add('early-data')
+        nontrivial = True
+
+    if case['banner']:
+        labels.add('banner')
+
+    nb = 1 if by is None else 2
+
+    await rig.expect(lambda: len(rig.b_ends) >= nb and
+                     all(e.connected for e in rig.b_ends[:nb]),
+                     'established', 'relay:no-destination-connect:' + kind,
+                     lambda: '%s: destination saw %d connections, wanted %d'
+                     % (kind, len(rig.b_ends), nb))
+
+    if by is not None:
+        await rig.expect(lambda: any(len(e.received) >= 3000
+                                     for e in rig.b_ends),
+                         'relay', 'relay:bystander-data',
+                         'bystander data did not arrive')
+
+    # which accepted connection belongs to A?  (the bystander's carries the
+    # tag-5 stream)
+    def find_b():
+        for e in rig.b_ends[:nb]:
+            if by is None or bytes(e.received[:1]) != pat(5, 0, 1):
+                return e
+        return None
+
+    if by is not None and a.sent == 0:
+        # nothing distinguishes the two yet: let A speak first
+        a.write(pat(1, 0, 1))
+        a.sent = 1
+
+        await rig.expect(lambda: all(len(e.received) for e in rig.b_ends[:2]),
+                         'relay', 'relay:data-missing:' + kind,
+                         'first byte did not arrive')
+
+    b = find_b()
+
+    if b is None:
+        raise Violation('relay', 'no destination connection carries A\'s '
+                        'stream', 'relay:crosstalk')
+
+    b.sent = case['banner']
+
+    def a_got():
+        return bytes(a.received[skip:])
+
+    async def sync(why: str):
+        """Everything sent so far has arrived, content checked"""
+
+        await rig.expect(
+            lambda: len(b.received) >= a.sent and len(a_got()) >= b.sent,
+            'relay', 'relay:data-missing:' + kind,
+            lambda: '%s (%s): A->B %s; B->A %s' %
+            (kind, why, _diff(pat(1, 0, a.sent), bytes(b.received)),
+             _diff(pat(2, 0, b.sent), a_got())))
+        check_content(why)
+
+    def check_content(why: str):
+        for name, want, got in (('A->B', pat(1, 0, a.sent),
+                                 bytes(b.received)),
+                                ('B->A', pat(2, 0, b.sent), a_got())):
+            if got != want[:len(got)] or len(got) > len(want):
+                raise Violation('relay', '%s %s (%s): %s' %
+                                (kind, name, why, _diff(want, got)),
+                                'relay:data-mismatch:' + kind)
+
+    paused = set()
+
+    for op in case['ops']:
+        what = op[0]
+
+        if what == 'a':
+            a.write(pat(1, a.sent, op[1]))
+            a.sent += op[1]
+        elif what == 'b':
+            b.write(pat(2, b.sent, op[1]))
+            b.sent += op[1]
+        elif what == 'sync':
+            for e in list(paused):
+                e.resume()
+            paused.clear()
+            await sync('sync')
+        elif what == 'pause':
+            end = a if op[1] == 'a' else b
+            end.pause()
+            paused.add(end)
+            labels.add('pause')
+        elif what == 'yield':
+            await rig.probe()
+
+        if what in ('a', 'b') and op[1] > 32768:
+            labels.add('write>pkt')
+
+    for e in paused:
+        e.resume()
+
+    end = case['end']
+    labels.add('end-' + end)
+    tail = case['tail']
+
+    async def expect_eof(who, why):
+        await rig.expect(lambda: who.eof, 'half-close' if 'half' in end
+                         else 'close-both',
+                         'relay:%s:no-eof-at-%s:%s' % (end, who.name[0], kind),
+                         lambda: '%s %s: %s never saw EOF/close (%s)' %
+                         (kind, end, who.name, why))
+
+    if end in ('a_half', 'b_half'):
+        x, y = (a, b) if end == 'a_half' else (b, a)
+        x.write_eof()
+        await sync('after write_eof')
+        await expect_eof(y, 'other end sent EOF')
+
+        if y.lost:
+            raise Violation('half-close', '%s: %s was closed, not '
+                            'half-closed, after %s sent EOF' %
+                            (kind, y.name, x.name),
+                            'relay:%s:closed-on-eof:%s' % (end, kind))
+
+        # the other direction keeps flowing
+        if tail:
+            labels.add('half-close-reverse-data')
+            nontrivial = True
+            y.write(pat(1 if y is a else 2, y.sent, tail))
+            y.sent += tail
+            await sync('reverse data after half-close')
+
+        if x.eof:
+            raise Violation('half-close', '%s: %s saw EOF although %s never '
+                            'sent one' % (kind, x.name, y.name),
+                            'relay:%s:spurious-eof:%s' % (end, kind))
+
+        y.write_eof()
+        await expect_eof(x, 'both directions finished')
+
+        if isinstance(a, ChanEnd):
+            # stream API: the application closes its writer when done
+            a.close()
+    elif end in ('a_close', 'b_close'):
+        x, y = (a, b) if end == 'a_close' else (b, a)
+        await sync('before close')
+        x.close()
+        await expect_eof(y, 'other end closed')
+        y.close()
+    elif end in ('a_abort', 'b_abort'):
+        x, y = (a, b) if end == 'a_abort' else (b, a)
+        await sync('before abort')
+        nontrivial = True
+        x.abort()
+        await expect_eof(y, 'other end aborted')
+        y.close()
+    elif end in ('conn_close', 'conn_abort', 'sconn_abort'):
+        await sync('before connection end')
+
+        if end == 'conn_close':
+            rig.conn.close()
+        elif end == 'conn_abort':
+            rig.conn.abort()
+        else:
+            rig.sconns[0].abort()
+
+        await expect_eof(a, 'SSH connection ended')
+        await expect_eof(b, 'SSH connection ended')
+    else:
+        raise HarnessError('end ' + end)
+
+    check_content('final')
+
+    if len(b.received) != a.sent and end not in ('a_abort',):
+        raise Violation('relay', '%s final A->B: %s' %
+                        (kind, _diff(pat(1, 0, a.sent), bytes(b.received))),
+                        'relay:data-mismatch:' + kind)
+
+    if by is not None and not end.startswith(('conn', 'sconn')):
+        # the bystander still works and only ever saw its own bytes
+        yb = [e for e in rig.b_ends[:2] if e is not b][0]
+        yb.write(pat(6, 0, 2000))
+
+        off = 12 if kind == 'socks' else 0
+        ywant = rig.b_banner + pat(6, 0, 2000)
+
+        await rig.expect(lambda: len(by.received) >= off + len(ywant),
+                         'relay', 'relay:bystander-data',
+                         'bystander reverse data did not arrive')
+
+        if bytes(by.received[off:]) != ywant or \
+                bytes(yb.received) != pat(5, 0, 3000):
+            raise Violation('relay', 'bystander connection content changed',
+                            'relay:crosstalk')
+
+    # the relay itself is gone once both directions are finished
+    if not end.startswith(('conn', 'sconn')):
+        for who, conn in (('client', rig.conn), ('server', rig.sconns[0])):
+            chans = getattr(conn, '_channels', None)
+
+            if chans is None:
+                continue
+
+            want = 1 + (1 if by is not None else 0)
+
+            await rig.expect(
+                lambda chans=chans: len(chans) <= want, 'release',
+                'relay:%s:channel-left-open:%s' % (end, kind),
+                lambda: '%s %s: %s connection still has %d channels '
+                '(%d expected) after both directions finished' %
+                (kind, end, who, len(chans), want), poll=True)
+
+    if rig.loop_errors:
+        ctx = rig.loop_errors[0]
+        raise Violation('loop-error', repr(ctx)[:600], 'relay:loop-error')
+
+    return nontrivial
+
+
+def run_relay(case) -> CaseResult:
+    rig = Rig()
+    labels = set()
+
+    try:
+        nontrivial = rig.run(relay_scenario(rig, case, labels))
+    finally:
+        rig.close()
+
+    return CaseResult(sorted(labels), nontrivial)
+
+
+def relay_strategy(tier: str):
+    sizes = [1, 7, 100, 4096, 32768, 32769, 70000]
+
+    if tier != 'quick':
+        sizes += [300000, 2500000]
+
+    size = st.one_of(st.sampled_from(sizes), st.integers(1, 2000))
+    small = st.one_of(st.just(0), st.just(0), st.sampled_from([1, 100, 5000]),
+                      st.integers(1, 300))
+    op = st.one_of(
+        st.tuples(st.just('a'), size).map(list),
+        st.tuples(st.just('b'), size).map(list),
+        st.just(['sync']), st.just(['yield']),
+        st.tuples(st.just('pause'), st.sampled_from(['a', 'b'])).map(list))
+
+    return st.fixed_dictionaries({
+        'kind': st.sampled_from(KINDS[:7] + KINDS[:5] + KINDS),
+        'socks': st.sampled_from(['4', '4a', '5', '5h']),
+        'pipelined': st.booleans(),
+        'early': small,
+        'banner': small,
+        'bystander': st.sampled_from([False, False, True]),
+        'slow': st.sampled_from([False, False, True]),
+        'ops': st.lists(op, max_size=6),
+        'end': st.sampled_from(['a_half', 'b_half', 'a_half', 'b_half',
+                                'a_close', 'b_close', 'a_abort', 'b_abort',
+                                'conn_close', 'conn_abort', 'sconn_abort']),
+        'tail': st.one_of(st.just(0), size),
+    })
+
+
+
+# -- Family 4: release -------------------------------------------------------
+
+REL_KINDS = ['local_port', 'local_path', 'socks', 'remote_port',
+             'remote_path', 'local_port_to_path', 'remote_path_to_port']
+
+
+async def release_scenario(rig: Rig, case, labels) -> bool:
+    end = case['end']
+    labels.add('end-' + end)
+    await rig.start(via_proxy=(end == 'cut'))
+    btcp = await rig.start_b(False)
+    bunix = await rig.start_b(True)
+    base_listen = own_listeners()
+    base_inodes = set(_own_socket_inodes())
+    made = []
+
+    for i, kind in enumerate(case['listeners']):
+        labels.add('rel-' + kind)
+        bwhere = bunix if kind in B_UNIX else btcp
+        lst, awhere = await setup_forward(rig, kind, bwhere, str(i))
+        made.append((kind, lst, awhere, bwhere))
+
+    now = own_listeners()
+
+    if len(now) - len(base_listen) < len(made):
+        raise HarnessError('C20 release: %d listeners requested, process '
+                           'shows %r (before: %r)' %
+                           (len(made), now, base_listen))
+
+    pairs = []
+    gone = None
+
+    for i in range(min(case['active'], len(made))):
+        kind, lst, awhere, bwhere = made[i]
+        labels.add('active')
+        nb = len(rig.b_ends)
+        a = await open_a(rig, kind, awhere, bwhere, 'A%d' % i)
+
+        if kind == 'socks':
+            a.write(b''.join(socks_request('5', bwhere)))
+
+        a.write(pat(1, 0, 500))
+        await rig.expect(lambda: len(rig.b_ends) > nb and
+                         len(rig.b_ends[nb].received) >= 500, 'relay',
+                         'release:data-missing:' + kind,
+                         '%s: 500 bytes did not reach the destination' % kind)
+        pairs.append((kind, a, rig.b_ends[nb]))
+
+    if case['explicit'] and made:
+        # documented: close() stops listening, existing connections stay
+        kind, lst, awhere, bwhere = made[0]
+        labels.add('explicit-close')
+        lst.close()
+        gone = made.pop(0)
+
+        await rig.expect(lambda: len(own_listeners()) <=
+                         len(base_listen) + len(made), 'release',
+                         'release:listener-left:explicit:' + kind,
+                         lambda: '%s listener closed explicitly, process '
+                         'still listens on %r' % (kind, own_listeners()),
+                         poll=True)
+
+        if pairs and pairs[0][0] == kind and pairs[0][1].name == 'A0':
+            _, a, b = pairs[0]
+            a.write(pat(1, 500, 300))
+            await rig.expect(lambda: len(b.received) >= 800, 'relay',
+                             'release:existing-connection-cut:' + kind,
+                             '%s: connection accepted before the listener '
+                             'was closed no longer relays' % kind)
+            labels.add('survives-listener-close')
+
+    if end == 'close':
+        rig.conn.close()
+    elif end == 'abort':
+        rig.conn.abort()
+    elif end == 'sabort':
+        rig.sconns[0].abort()
+    elif end == 'sclose':
+        rig.sconns[0].close()
+    elif end == 'cut':
+        rig.cut()
+    else:
+        raise HarnessError('end ' + end)
+
+    for kind, a, b in pairs:
+        for who in (a, b):
+            await rig.expect(lambda who=who: who.eof, 'close-both',
+                             'release:%s:no-eof-at-%s:%s' %
+                             (end, who.name[0], kind),
+                             '%s: %s not closed after the SSH connection '
+                             'ended (%s)' % (kind, who.name, end))
+
+    # (asyncio's Server.wait_closed() also waits for accepted connections,
+    # so it is only awaited once the relayed connections are gone)
+    for kind, lst, awhere, bwhere in made + ([gone] if gone else []):
+        task = rig.loop.create_task(_aw(lst.wait_closed()))
+        await rig.expect(task.done, 'release',
+                         'release:wait_closed-hangs:%s:%s' % (end, kind),
+                         '%s listener: wait_closed() does not return after '
+                         'the connection ended (%s)' % (kind, end),
+                         poll=True)
+
+        if task.done():
+            task.result()
+
+    # the harness lets go of its own ends; nothing the case created may be
+    # left in the process
+    for e in rig.ends + rig.b_ends:
+        if e.tr is not None:
+            e.tr.abort()
+
+    await rig.expect(lambda: own_listeners() == base_listen, 'release',
+                     'release:listener-left:' + end,
+                     lambda: 'after %s the process still listens on %r '
+                     '(listeners of the case: %r)' %
+                     (end, sorted(set(own_listeners()) - set(base_listen)),
+                      [(k, w) for k, _, w, _ in made]), poll=True)
+    await rig.expect(lambda: set(_own_socket_inodes()) <= base_inodes,
+                     'release', 'release:socket-left:' + end,
+                     lambda: 'after %s %d sockets created by the case are '
+                     'still open' %
+                     (end, len(set(_own_socket_inodes()) - base_inodes)),
+                     poll=True)
+
+    if rig.loop_errors:
+        raise Violation('loop-error', repr(rig.loop_errors[0])[:600],
+                        'release:loop-error')
+
+    return True
+
+
+def run_release(case) -> CaseResult:
+    rig = Rig()
+    labels = set()
+
+    try:
+        nontrivial = rig.run(release_scenario(rig, case, labels))
+    finally:
+        rig.close()
+
+    return CaseResult(sorted(labels), nontrivial)
+
+
+def release_strategy(tier: str):
+    return st.fixed_dictionaries({
+        'listeners': st.lists(st.sampled_from(REL_KINDS), min_size=1,
+                              max_size=4),
+        'active': st.integers(0, 2),
+        'explicit': st.sampled_from([False, False, True]),
+        'end': st.sampled_from(['close', 'abort', 'sabort', 'sclose',
+                                'cut']),
+    })
+
+
+# -- Family 5: OpenSSH interop ----------------------------------------------
+
+SSH = shutil.which('ssh') or '/usr/bin/ssh'
+INTEROP_MODES = ['L', 'Lunix', 'Ltcp', 'R', 'Runix', 'Rtcp', 'D4', 'D5']
+
+
+def _free_port() -> int:
+    sock = socket.socket(socket.AF_INET, socket.SOCK_STREAM)
+
+    try:
+        sock.bind(('127.0.0.1', 0))
+        return sock.getsockname()[1]
+    finally:
+        sock.close()
+
+
+async def interop_scenario(rig: Rig, case, labels) -> bool:
+    mode = case['mode']
+    labels.add('ssh-' + mode)
+    user = memwire.key('c20-user')
+    keyfile = os.path.join(rig.tmp, 'id')
+    user.write_private_key(keyfile)
+    os.chmod(keyfile, 0o600)
+    akeys = asyncssh.import_authorized_keys(
+        user.export_public_key().decode())
+    rig.b_banner = pat(2, 0, case['banner'])
+    await rig.start(server_opts={'authorized_client_keys': akeys},
+                    connect=False)
+    b_unix = mode in ('Lunix', 'Runix')
+    bwhere = await rig.start_b(b_unix)
+    tmp = rig.tmp
+    base_listen = own_listeners()
+
+    for attempt in range(4):
+        lport = _free_port()
+
+        if mode == 'L':
+            awhere: Any = os.path.join(tmp, 'l.sock')
+            fwd = ['-L', '%s:127.0.0.1:%d' % (awhere, bwhere)]
+        elif mode == 'Lunix':
+            awhere = os.path.join(tmp, 'l.sock')
+            fwd = ['-L', '%s:%s' % (awhere, bwhere)]
+        elif mode == 'Ltcp':
+            awhere = lport
+            fwd = ['-L', '127.0.0.1:%d:localhost:%d' % (lport, bwhere)]
+        elif mode == 'R':
+            awhere = os.path.join(tmp, 'r.sock')
+            fwd = ['-R', '%s:127.0.0.1:%d' % (awhere, bwhere)]
+        elif mode == 'Runix':
+            awhere = os.path.join(tmp, 'r.sock')
+            fwd = ['-R', '%s:%s' % (awhere, bwhere)]
+        elif mode == 'Rtcp':
+            awhere = lport
+            fwd = ['-R', '127.0.0.1:%d:127.0.0.1:%d' % (lport, bwhere)]
+        else:
+            awhere = lport
+            fwd = ['-D', '127.0.0.1:%d' % lport]
+
+        cmd = [SSH, '-F', '/dev/null', '-N', '-T', '-p', str(rig.sport),
+               '-i', keyfile, '-o', 'StrictHostKeyChecking=no',
+               '-o', 'UserKnownHostsFile=/dev/null',
+               '-o', 'IdentitiesOnly=yes', '-o', 'BatchMode=yes',
+               '-o', 'ExitOnForwardFailure=yes', '-o', 'LogLevel=ERROR',
+               '-o', 'IdentityAgent=none'] + fwd + ['user@127.0.0.1']
+        proc = subprocess.Popen(cmd, stdin=subprocess.DEVNULL,
+                                stdout=subprocess.PIPE,
+                                stderr=subprocess.PIPE,
+                                env={'PATH': os.environ.get('PATH', ''),
+                                     'HOME': tmp})
+        rig.procs.append(proc)
+        a = None
+        deadline = rig.loop.time() + HARNESS_TIMEOUT
+
+        while rig.loop.time() < deadline and proc.poll() is None:
+            try:
+                if isinstance(awhere, str) and not os.path.exists(awhere):
+                    raise OSError('not yet')
+
+                a = await rig.connect_a(awhere)
+                break
+            except OSError:
+                if rig.ends and not rig.ends[-1].connected:
+                    rig.ends.pop()
+                await asyncio.sleep(0.02)
+
+        if a is not None:
+            break
+
+        err = proc.stderr.read().decode('utf-8', 'replace') \
+            if proc.poll() is not None else 'still running'
+
+        if proc.poll() is not None and 'forward' in err.lower() and \
+                not isinstance(awhere, str):
+            continue    # port taken in the meantime by someone else
+
+        raise HarnessError('C20 interop: ssh %s not ready: %s' %
+                           (' '.join(fwd), err[-400:]))
+    else:
+        raise HarnessError('C20 interop: no free port for ssh')
+
+    skip = 0
+    ver = ''
+
+    if mode in ('D4', 'D5'):
+        ver = '4a' if mode == 'D4' else '5h'
+        a.write(b''.join(socks_request(ver, bwhere)))
+
+    size = case['size']
+    a.write(pat(1, 0, size))
+    a.sent = size
+
+    if ver:
+        await rig.expect(lambda: a.eof or
+                         socks_reply_len(ver, a.received) is not None,
+                         'socks-reply', 'interop:socks-no-reply',
+                         'no SOCKS reply through ssh -D')
+        skip = socks_reply_len(ver, a.received) or 0
+
+    await rig.expect(lambda: rig.b_ends and
+                     len(rig.b_ends[0].received) >= size, 'relay',
+                     'interop:data-missing:' + mode,
+                     lambda: 'ssh %s: A->B %s' %
+                     (mode, _diff(pat(1, 0, size),
+                                  bytes(rig.b_ends[0].received)
+                                  if rig.b_ends else b'')))
+    b = rig.b_ends[0]
+    b.write(pat(2, case['banner'], case['back']))
+    b.sent = case['banner'] + case['back']
+
+    def a_got():
+        return bytes(a.received[skip:])
+
+    await rig.expect(lambda: len(a_got()) >= b.sent, 'relay',
+                     'interop:data-missing:' + mode,
+                     lambda: 'ssh %s: B->A %s' %
+                     (mode, _diff(pat(2, 0, b.sent), a_got())))
+
+    x, y = (a, b) if case['end'] == 'a_half' else (b, a)
+    labels.add('end-' + case['end'])
+    x.write_eof()
+    await rig.expect(lambda: y.eof, 'half-close',
+                     'interop:no-eof:%s:%s' % (case['end'], mode),
+                     'ssh %s: EOF from %s never reached %s' %
+                     (mode, x.name, y.name))
+
+    if case['tail'] and not y.lost:
+        labels.add('half-close-reverse-data')
+        y.write(pat(1 if y is a else 2, y.sent, case['tail']))
+        y.sent += case['tail']
+        await rig.expect(lambda: len(b.received) >= a.sent and
+                         len(a_got()) >= b.sent, 'half-close',
+                         'interop:reverse-data-missing:' + mode,
+                         'ssh %s: data sent after the peer\'s EOF did not '
+                         'arrive' % mode)
+
+    y.write_eof()
+    await rig.expect(lambda: x.eof, 'close-both',
+                     'interop:no-final-eof:' + mode,
+                     'ssh %s: second EOF never arrived' % mode)
+
+    if bytes(b.received) != pat(1, 0, a.sent) or \
+            a_got() != pat(2, 0, b.sent):
+        raise Violation('relay', 'ssh %s: A->B %s; B->A %s' %
+                        (mode, _diff(pat(1, 0, a.sent), bytes(b.received)),
+                         _diff(pat(2, 0, b.sent), a_got())),
+                        'interop:data-mismatch:' + mode)
+
+    if proc.poll() is not None:
+        raise HarnessError('C20 interop: ssh exited early: ' +
+                           proc.stderr.read().decode('utf-8', 'replace'))
+
+    proc.terminate()
+
+    # the ssh client is gone: the server releases what it opened for it
+    await rig.expect(lambda: rig.sconns and all(
+        getattr(c, '_transport', None) is None for c in rig.sconns),
+        'release', 'interop:server-connection-left',
+        'server connection still up after the client exited', poll=True)
+    await rig.expect(lambda: own_listeners() == base_listen, 'release',
+                     'interop:listener-left:' + mode,
+                     lambda: 'after ssh exited the server process still '
+                     'listens on %r' %
+                     (sorted(set(own_listeners()) - set(base_listen)),),
+                     poll=True)
+    return bool(case['tail'])
+
+
+def run_interop(case) -> CaseResult:
+    rig = Rig()
+    labels = set()
+
+    try:
+        nontrivial = rig.run(interop_scenario(rig, case, labels))
+    finally:
+        rig.close()
+
+    return CaseResult(sorted(labels), nontrivial)
+
+
+def interop_strategy(tier: str):
+    return st.fixed_dictionaries({
+        'mode': st.sampled_from(INTEROP_MODES),
+        'size': st.sampled_from([1, 100, 32769, 70000, 200000]),
+        'back': st.sampled_from([1, 100, 40000]),
+        'banner': st.sampled_from([0, 0, 20]),
+        'end': st.sampled_from(['a_half', 'b_half']),
+        'tail': st.sampled_from([0, 50, 5000]),
+    })
+
+
+FAMILIES = [
+    Family('socks', run_socks, strategy=socks_strategy,
+           budget={'quick': 6000, 'thorough': 200000},
+           required={'all': ['socks4', 'socks4a', 'socks5-ipv4',
+                             'socks5-host', 'socks5-ipv6', 'reject',
+                             'incomplete', 'early-data', 'split-request',
+                             'open-fail', 'eof-before-open', 'chunk-1byte']},
+           shards={'quick': 8, 'thorough': 16},
+           timeout_is_violation=True, case_timeout=20),
+    Family('permissions', run_perm, strategy=perm_strategy,
+           budget={'quick': 700, 'thorough': 12000},
+           required={'all': ['auth-password', 'auth-key', 'auth-cert',
+                             'tcp-allowed', 'tcp-denied', 'unix-allowed',
+                             'unix-denied', 'listen-allowed', 'listen-denied',
+                             'ulisten-allowed', 'ulisten-denied',
+                             'denied-by-key', 'denied-by-cert',
+                             'denied-by-permitopen', 'permitopen-match',
+                             'dynamic-port', 'cancel', 'listener-at-end',
+                             'end-close', 'end-abort', 'end-cut']}),
+    Family('relay', run_relay, strategy=relay_strategy,
+           budget={'quick': 160, 'thorough': 3000},
+           required={'all': KINDS + ['early-data', 'banner',
+                                     'half-close-reverse-data', 'end-a_half',
+                                     'end-b_half', 'end-a_abort',
+                                     'end-b_abort', 'end-conn_close',
+                                     'bystander', 'pause', 'write>pkt',
+                                     'socks-pipelined']},
+           case_timeout=120),
+    Family('release', run_release, strategy=release_strategy,
+           budget={'quick': 120, 'thorough': 2000},
+           required={'all': ['rel-' + k for k in REL_KINDS] +
+                     ['active', 'explicit-close', 'survives-listener-close',
+                      'end-close', 'end-abort', 'end-sabort', 'end-cut']},
+           case_timeout=120),
+    Family('interop', run_interop, strategy=interop_strategy,
+           budget={'quick': 24, 'thorough': 200},
+           required={'all': ['ssh-L', 'ssh-R', 'ssh-D5']},
+           shards={'quick': 8, 'thorough': 16}, case_timeout=120),
+]
